@@ -63,23 +63,31 @@ def match_known(known, prop, obligation, where, site_text):
 
 
 def run_unit_with_canary(unit):
-    r = V.run_verus_unit(unit)
+    r = V.run_verus_unit(unit, canary=False)
     canary = None
     if r.status in ("ok", "failed"):
-        os.environ["VP_CANARY"] = "1"
-        try:
-            c = V.run_verus_unit(unit)
-        finally:
-            del os.environ["VP_CANARY"]
-        want = [it["name"] for it in c.items if it["kind"] == "fn" and not it["external_body"]]
-        got = set()
-        for f in c.failures:
-            if f.get("site") and "[CANARY]" in (f["site"].get("text") or "") or "[CANARY]" in (f.get("text") or ""):
-                got.add(f["function"])
-        # functions are identified by name; a name may occur twice (two impls) – count occurrences
-        missing = [w for w in set(want) if w not in got]
-        canary = {"run": len(want), "failed_as_expected": len(want) - len([w for w in want if w not in got]), "vacuous": missing,
-                  "status": c.status, "reason": c.reason}
+        c = V.run_verus_unit(unit, canary=True)
+        # a contract is vacuous iff `assert(false)` at the function's entry *verifies*; a function the solver gives
+        # up on (rlimit) is not vacuous.  Functions are matched by short name and counted (several impls may share one).
+        want = {}
+        for it in c.items:
+            if it["kind"] == "fn" and not it["external_body"]:
+                want[it["name"]] = want.get(it["name"], 0) + 1
+        refuted = {}
+        for f in c.functions:
+            if not f["success"]:
+                short = f["name"].split("::")[-1]
+                refuted[short] = refuted.get(short, 0) + 1
+        for f in c.failures:   # functions reported through diagnostics only
+            if f.get("function") and f["function"] not in refuted:
+                refuted[f["function"]] = refuted.get(f["function"], 0) + 1
+        missing = sorted(n for n, k in want.items() if refuted.get(n, 0) < k)
+        total = sum(want.values())
+        ok_n = sum(min(k, refuted.get(n, 0)) for n, k in want.items())
+        status = c.status
+        if c.status == "undecided" and c.functions and not missing:
+            status = "failed"   # rlimit noise in a canary run is irrelevant once every entry canary is refuted
+        canary = {"run": total, "failed_as_expected": ok_n, "vacuous": missing, "status": status, "reason": c.reason}
     return r, canary
 
 
